@@ -337,7 +337,11 @@ type c21World struct {
 	wsEnd chan struct{}
 }
 
-func c21NewWorld(c c21Cfg) (*c21World, error) {
+func c21NewWorld(c c21Cfg) (*c21World, error) { return c21NewWorldOpt(c, true) }
+
+// c21NewWorldOpt builds a fresh real Agent (and with it a fresh socks5.Server, Handler and
+// authenticators) for the configuration; withWS also serves the real WebSocket upgrade handler.
+func c21NewWorldOpt(c c21Cfg, withWS bool) (*c21World, error) {
 	cfg := config.Default()
 	cfg.Agent.ID = "c21c21c21c21c21c21c21c21c21c21c2"
 	cfg.Agent.DataDir = ""
@@ -358,6 +362,9 @@ func c21NewWorld(c c21Cfg) (*c21World, error) {
 	a.socks5Srv.VerifSetDialer(w.rec)
 	a.socks5Srv.SetUDPHandler(w.rec)
 	a.socks5Srv.SetICMPHandler(w.rec)
+	if !withWS {
+		return w, nil
+	}
 	// WebSocket listener configuration exactly as Agent.Start builds it
 	wsCfg := socks5.WebSocketConfig{Address: "127.0.0.1:0", Path: "/socks5", PlainText: true}
 	if a.cfg.SOCKS5.Auth.Enabled {
@@ -381,6 +388,9 @@ func c21NewWorld(c c21Cfg) (*c21World, error) {
 }
 
 func (w *c21World) close() {
+	if w.wsSrv == nil {
+		return
+	}
 	w.wsSrv.Close()
 	w.wsLn.Close()
 }
@@ -446,6 +456,9 @@ type c21Case struct {
 	Cuts  []int  `json:"cuts"` // [-1] = one byte per read / message
 	WS    bool   `json:"websocket"`
 	Basic string `json:"basic"` // "" = no Authorization header, else "user:pass"
+	// History, if non-empty, makes this a case of the histories part (histories_test.go): the
+	// steps are run in order on ONE freshly built server instance of configuration Cfg.
+	History []c21Case `json:"history,omitempty"`
 
 	in []byte
 }
@@ -749,7 +762,17 @@ func TestVerif_C21(t *testing.T) {
 	}
 
 	var rc c21Case
-	if r.ReplayInto(&rc) {
+	replaying := r.ReplayInto(&rc)
+	if replaying && len(rc.History) > 0 {
+		for i := range rc.History {
+			b, err := hex.DecodeString(rc.History[i].In)
+			if err != nil {
+				t.Fatal(err)
+			}
+			rc.History[i].in = b
+		}
+		c21RunHistory(r, cfgs, rc.Cfg, rc.History, nil)
+	} else if replaying {
 		b, err := hex.DecodeString(rc.In)
 		if err != nil {
 			t.Fatal(err)
@@ -838,6 +861,17 @@ func TestVerif_C21(t *testing.T) {
 				}
 			}
 		}
+		// part H: histories of handshakes on one server instance (histories_test.go)
+		c21HistoriesPart(r, cfgs, func() bool {
+			if stop {
+				return true
+			}
+			n++
+			if n%256 == 0 && r.Expired() {
+				stop = true
+			}
+			return stop
+		})
 	}
 	_ = runtime.NumGoroutine
 	if err := r.Finish(); err != nil {
